@@ -41,6 +41,11 @@ var c17Toks []*c17Tok
 // c17Pads: how many sealed sizes per token are explored (1..3).
 var c17Pads = 3
 
+// c17EqualSizes: all tokens have the same sealed size, so that offsets of
+// section boundaries do not depend on the order in which the Writer (a Go
+// map) is iterated natively.
+var c17EqualSizes = false
+
 func c17TrueCid(data []byte) cid.Cid {
 	c, err := cid.V1Builder{Codec: 0x71, MhType: multihash.SHA2_256}.Sum(data)
 	if err != nil {
@@ -54,6 +59,9 @@ func c17Setup(k int, symbolicCorruption bool) {
 	c17Toks = nil
 	for i := 0; i < k; i++ {
 		n := 5 + 2*i + vChoose("pad"+string(rune('0'+i)), c17Pads) // sizes 5..7, 7..9
+		if c17EqualSizes {
+			n = 7
+		}
 		data := make([]byte, n)
 		for j := range data {
 			data[j] = byte(0x40 + 16*i + j)
@@ -156,7 +164,7 @@ func c17Exact(rd Reader, k int, what string) {
 // reader gives back exactly the tokens added, in any insertion order; one
 // corrupt / unverifiable entry makes the read fail.
 func VerifC17Matrix() {
-	c17Pads = 3
+	c17Pads, c17EqualSizes = 3, false
 	k := 1 + vChoose("tokens", vParam("K"))
 	c17Setup(k, true)
 	format := vChoose("format", 4)
@@ -195,7 +203,7 @@ func VerifC17Matrix() {
 // (any codec, a digest that may be wrong) is either rejected or returned
 // under the true CID of its bytes.
 func VerifC17BlockCid() {
-	c17Pads = 1
+	c17Pads, c17EqualSizes = 1, false
 	c17Setup(2, false)
 	codec := vU8("codec")
 	vAssume(codec < 0x80)
@@ -226,4 +234,83 @@ func VerifC17BlockCid() {
 	vReach("accepted")
 	vAssert(flip == 0, "a CAR block stored under a CID that does not hash to its data was accepted")
 	c17Exact(rd, 2, "CAR with a caller-chosen block CID")
+}
+
+// VerifC17Corrupt: one byte of a written container is replaced (any offset),
+// or the container is cut short: reading fails, or still yields exactly the
+// tokens that were written — never a partial or mislabelled set.
+func VerifC17Corrupt() {
+	c17Pads, c17EqualSizes = 1, true
+	k := 2
+	c17Setup(k, false)
+	format := []int{c17Car, c17Cbor}[vChoose("format", 2)]
+	w := NewWriter()
+	for i := 0; i < k; i++ {
+		w.AddSealed(c17Toks[i].c, c17Toks[i].data)
+	}
+	out, err := c17Write(w, format, false)
+	if err != nil {
+		vSkip("unreachable: write failed")
+	}
+	bad := append([]byte{}, out...)
+	legitCut := false
+	if vChoose("truncate", 2) == 1 {
+		keep := vChoose("keep", len(out))
+		bad = bad[:keep]
+		if format == c17Car {
+			// a CAR cut exactly at a section boundary is a shorter, well-formed CAR
+			pos := 0
+			for pos < len(out) {
+				pos += 1 + int(out[pos])
+				if pos == keep {
+					legitCut = true
+				}
+			}
+		}
+		vReach("truncated")
+	} else {
+		off := vChoose("offset", len(out))
+		// Positions whose value selects how much is allocated / which hash
+		// function runs / what gets hashed take a restricted set of
+		// replacements (stated in the bounds); every other position takes any
+		// value.
+		hashed, prefix := false, false
+		if format == c17Car {
+			prefix = off == 0
+			pos := 1 + int(out[0])
+			for pos < len(out) {
+				l := int(out[pos])
+				if off == pos || off == pos+1+3 { // section length, multihash digest length
+					prefix = true
+				}
+				if off == pos+1+2 || (off >= pos+1+36 && off < pos+1+l) { // multihash code, token data
+					hashed = true
+				}
+				pos += 1 + l
+			}
+		}
+		if hashed {
+			bad[off] ^= []byte{0x01, 0x80, 0xff}[vChoose("flip", 3)]
+		} else {
+			v := vU8("value")
+			vAssume(v != out[off])
+			if prefix {
+				vAssume(v < 0x80) // a one-byte length (longer ones make go-cid / ldRead allocate up to their 32 MiB caps, which the engine does not materialise)
+			}
+			bad[off] = v
+		}
+		vReach("byte-replaced")
+	}
+	vBudget(20000000)
+	rd, err := c17Read(bad, format, false)
+	if err != nil {
+		vReach("rejected")
+		return
+	}
+	vReach("accepted")
+	if legitCut {
+		vAssert(len(rd) < k, "a truncated CAR yields all tokens")
+		return
+	}
+	c17Exact(rd, k, "corrupted container that was accepted")
 }
